@@ -33,11 +33,12 @@ EXPLANATION = (
 )
 NONTRIVIAL_RULE = "non-identity layout and at least one event that changed the configuration"
 BOUNDS = {
+    "hashseed_independence": "machine DT in a child process per PYTHONHASHSEED value (symbolic, 1..16 quick / 1..64 thorough; reference seed 0), natural address-based StateNode hashing; 5 canned sequences of 5 events; sync engine, asyncio engine and the pure transition() API; traces must be equal across seeds and across the three APIs",
     "layout_independence": "machine DT (15 state nodes); event sequences of length L (item label) over 9 events; hash layout = symbolic permutation of a group of K nodes (item label; all K! permutations), other nodes keep document-order hashes; both engines",
 }
 ASSUMPTIONS = [
     "hashpin: StateNode.__hash__ returns a small distinct int per node; for distinct ints below the table size CPython iterates a set in ascending hash order, so permuting the ints permutes iteration order. Address-based hashing of a real run is one such layout",
-    "PYTHONHASHSEED (str hashes) and separate processes are outside: the engine's str-keyed containers are dicts (insertion ordered) or membership-only sets - this is an observation, not something the check establishes",
+    "hashseed_independence runs the machine natively in child processes (a process boundary cannot be traced); the solver only chooses the seed - the values 0..16 (64) are a sample of the seed space, not all of it",
     "generated identifiers (uuid actor ids, timer keys): DT spawns nothing; their independence is outside this obligation",
 ]
 WALL_BUDGET = {"quick": 600.0, "thorough": 3000.0}
@@ -156,6 +157,9 @@ def _trace(eng: int, layout: Tuple[int, ...], evs: List[str]) -> List[Any]:
         await it.stop()
 
     common.drive(go())
+    for lo in range(0, 16 if quick else 64, 4):
+        out.append({"ob": "hashseed_independence", "params": {"group": [], "seeds": [lo + 1, lo + 5]}, "timeout": 300,
+                    "label": f"hashseed_independence[PYTHONHASHSEED {lo + 1}..{lo + 4}]"})
     return out
 
 
@@ -209,7 +213,72 @@ def layout_independence(p0: int, p1: int, p2: int, p3: int, p4: int, e0: int, e1
     return verdict(why is None, nontrivial=moved and layout != tuple(range(k)))
 
 
-OBLIGATIONS = {"layout_independence": layout_independence}
+# ---------------------------------------------------------------------------
+# other processes / other PYTHONHASHSEED values (native child processes, solver-chosen seed)
+# ---------------------------------------------------------------------------
+
+SEQS = [["LEAVE", "BACK", "GO", "LEAVE", "BACKS"], ["GO", "G1", "LEAVE", "BACK", "GO"], ["G3", "GO", "RE", "LEAVE", "BACK2"],
+        ["GO", "GO", "LEAVE", "BACKS", "TICK"], ["G1", "G3", "LEAVE", "BACK", "RE"]]
+_PROBE: Dict[int, Any] = {}
+
+
+def _probe(seed: int) -> Any:
+    v = _PROBE.get(seed)
+    if v is None:
+        import json
+        import os
+        import subprocess
+        import sys
+
+        env_ = dict(os.environ)
+        env_["PYTHONHASHSEED"] = str(seed)
+        root = os.path.dirname(os.path.dirname(os.path.abspath(__file__)))
+        r = subprocess.run([sys.executable, "-m", "vf.hashseed_probe", json.dumps(SEQS)], cwd=root, env=env_, capture_output=True, text=True, timeout=120)
+        if r.returncode != 0:
+            from vf.kf import HarnessLimit
+
+            raise HarnessLimit("hashseed probe failed: " + r.stderr[-400:])
+        v = json.loads(r.stdout)
+        _PROBE[seed] = v
+    return v
+
+
+def hashseed_independence(seed: int) -> bool:
+    """
+    pre: gate('hashseed_independence', seed=seed)
+    post: _
+    """
+    lo, hi = P["seeds"]
+    sd = lo + pick(seed, hi - lo)
+
+    def run() -> Optional[str]:
+        ref = _probe(0)
+        got = _probe(sd)
+        for engine in ("sync", "async", "pure"):
+            if got[engine] != ref[engine]:
+                for si, (a, b) in enumerate(zip(ref[engine], got[engine])):
+                    for k, (x, y) in enumerate(zip(a, b)):
+                        if x != y:
+                            return (f"{engine} API, PYTHONHASHSEED={sd} vs 0, sequence {SEQS[si]}, event #{k + 1} {SEQS[si][k]}: "
+                                    f"{y[0]} vs {x[0]}" if x[0] != y[0] else f"{engine}: configuration/context {y[1:]} vs {x[1:]}")
+                return f"{engine} traces differ"
+        # the three APIs agree with one another inside the reference process as well (action order and configurations)
+        for si in range(len(SEQS)):
+            for k in range(len(SEQS[si])):
+                s_ = [[a, b] for a, b, _e in ref["sync"][si][k][0]]
+                a_ = [[a, b] for a, b, _e in ref["async"][si][k][0]]
+                p_ = ref["pure"][si][k][0]
+                if s_ != a_ or s_ != p_:
+                    return f"APIs disagree in one process: sequence {SEQS[si]} event #{k + 1}: sync {s_} async {a_} pure {p_}"
+        return None
+
+    why = common.native(run)
+    if why:
+        _note(why)
+    return verdict(why is None, nontrivial=sd != 0)
+
+
+OBLIGATIONS = {"layout_independence": layout_independence, "hashseed_independence": hashseed_independence}
 PROBES = {"layout_independence": [{"p0": 1, "e0": 3, "e1": 4}, {"p0": 2, "p1": 1, "e0": 0, "e1": 3, "e2": 4}, {"p0": 1, "e0": 3, "e1": 5}, {"p0": 3, "p1": 0, "e0": 0, "e1": 7}]}
 
 GROUPS = {
@@ -237,4 +306,10 @@ def items(tier: str, seed: int) -> List[Dict[str, Any]]:
                 for second in EVENTS:
                     out.append({"ob": "layout_independence", "params": {"group": GROUPS[g], "prefix": [first, second], "L": 4}, "timeout": 2400,
                                 "label": f"layout_independence[{g},K={len(GROUPS[g])},{first},{second}+2]"})
+    for lo in range(0, 16 if quick else 64, 4):
+        out.append({"ob": "hashseed_independence", "params": {"group": [], "seeds": [lo + 1, lo + 5]}, "timeout": 300,
+                    "label": f"hashseed_independence[PYTHONHASHSEED {lo + 1}..{lo + 4}]"})
+    for lo in range(0, 16 if quick else 64, 4):
+        out.append({"ob": "hashseed_independence", "params": {"group": [], "seeds": [lo + 1, lo + 5]}, "timeout": 300,
+                    "label": f"hashseed_independence[PYTHONHASHSEED {lo + 1}..{lo + 4}]"})
     return out
